@@ -22,5 +22,5 @@ CONSTANTS
   CbFeeClasses = {"cf0", "cf1", "cftyp", "cfmax40", "cfmax64"}
   AlgStride = 1
   CbStride = 2
-  ShapeStride = 13
+  ShapeStride = 19
 INVARIANTS TypeOK BuilderBalances CoinbaseOK EmitShape
